@@ -220,6 +220,19 @@ RECURSIVE SumWorth(_, _, _)
 SumWorth(b, c, sq) == IF sq > 64 THEN 0 ELSE (IF ColorOf(b[sq]) = c THEN Worth(b[sq]) ELSE 0) + SumWorth(b, c, sq + 1)
 Imbalance(b) == LET w == SumWorth(b, "w", 1) k == SumWorth(b, "b", 1) IN IF w >= k THEN w - k ELSE k - w
 
+\* ---- draw claims the engine deliberately does NOT implement (documented deviation) -------------
+\* The searcher knows only its own "position already searched in this game = draw" rule (Search.tla,
+\* HistoryHit); the fifty-move rule, threefold repetition by the arbiter's definition and dead positions
+\* are not modelled by the implementation, so no property refers to them.  They are defined here so that
+\* the deviation is explicit and a future implementation has a specification to be bound to.
+FiftyMoveClaimable(p) == p.half >= 100
+Minor(b, c) == { sq \in Squares : b[sq] \in {Mk(c, "N"), Mk(c, "B")} }
+InsufficientMaterial(p) ==
+  /\ \A sq \in Squares : KindOf(p.board[sq]) \notin {"P", "R", "Q"}
+  /\ Cardinality(Minor(p.board, "w")) + Cardinality(Minor(p.board, "b")) <= 1
+\* with insufficient material nobody can be mated: a consistency lemma checked on enumerated endgames
+DeadPositionLemma(p) == InsufficientMaterial(p) => Status(p) # "mate"
+
 \* ---- the rules as a state machine ---------------------------------------------
 VARIABLE pos
 ChessInit(seeds) == pos \in seeds
